@@ -1295,6 +1295,38 @@ def line_of(text, pos):
     return text.count("\n", 0, pos) + 1
 
 
+def scan_proof_fns(woven, rel, shift, anchors):
+    """proof functions (lemmas): named obligations "lemma:<name>", tags taken from a
+    `/// [Cxx,...]` doc comment in front of them"""
+    wt = lex(woven)
+    for qi, t in enumerate(wt):
+        if t.kind == IDENT and t.text == "proof":
+            n1 = next_sig(wt, qi + 1)
+            if n1 < len(wt) and wt[n1].text == "fn":
+                n2 = next_sig(wt, n1 + 1)
+                name = wt[n2].text
+                k = n2
+                while k < len(wt) and not (wt[k].kind == PUNCT and wt[k].text == "{"):
+                    if wt[k].kind == PUNCT and wt[k].text in "([":
+                        k = match_close(wt, k)
+                    k += 1
+                if k >= len(wt):
+                    continue
+                e = match_close(wt, k)
+                tags = []
+                b = qi - 1
+                while b >= 0 and (wt[b].kind in (WS, COMMENT) or wt[b].text in ("pub", "broadcast", "#", "[", "]") or (wt[b].kind == IDENT and b > 0 and wt[b - 1].text in ("[", ":"))):
+                    if wt[b].kind == COMMENT:
+                        m = re.search(r"\[((?:C\d+|KF)(?:\s*,\s*(?:C\d+|KF))*)\]", wt[b].text)
+                        if m and not tags:
+                            tags = [x.strip() for x in m.group(1).split(",")]
+                    b -= 1
+                anchors["functions"].append({"file": rel, "key": "lemma:" + name, "mode": "proof",
+                                             "line_start": line_of(woven, wt[qi].pos) + shift,
+                                             "line_end": line_of(woven, wt[e].end) + shift,
+                                             "tags": tags, "contracted": True})
+
+
 BASELINE = {}
 
 
@@ -1390,37 +1422,7 @@ def weave_tree(repo, out, extra_modules=None, contracts_dir=CONTRACTS, vacuity=F
                                          "tags": (spec.tags if spec else []),
                                          "contracted": spec is not None})
         all_specs[rel] = fnspecs
-        # proof functions (lemmas) of the extra text: named obligations "lemma:<name>", tags
-        # taken from a `/// [Cxx,...]` doc comment in front of them
-        wt = lex(woven)
-        for qi, t in enumerate(wt):
-            if t.kind == IDENT and t.text == "proof":
-                n1 = next_sig(wt, qi + 1)
-                if n1 < len(wt) and wt[n1].text == "fn":
-                    n2 = next_sig(wt, n1 + 1)
-                    name = wt[n2].text
-                    # body
-                    k = n2
-                    while k < len(wt) and not (wt[k].kind == PUNCT and wt[k].text == "{"):
-                        if wt[k].kind == PUNCT and wt[k].text in "([":
-                            k = match_close(wt, k)
-                        k += 1
-                    if k >= len(wt):
-                        continue
-                    e = match_close(wt, k)
-                    # doc comments immediately before (skip `pub`, attributes)
-                    tags = []
-                    b = qi - 1
-                    while b >= 0 and (wt[b].kind in (WS, COMMENT) or wt[b].text in ("pub", "broadcast") or wt[b].text in ("#", "[", "]") or wt[b].kind == IDENT and wt[b - 1].text in ("[", ":")):
-                        if wt[b].kind == COMMENT:
-                            m = re.search(r"\[((?:C\d+|KF)(?:\s*,\s*(?:C\d+|KF))*)\]", wt[b].text)
-                            if m:
-                                tags = [x.strip() for x in m.group(1).split(",")]
-                        b -= 1
-                    anchors["functions"].append({"file": rel, "key": "lemma:" + name, "mode": "proof",
-                                                 "line_start": line_of(woven, wt[qi].pos) + shift,
-                                                 "line_end": line_of(woven, wt[e].end) + shift,
-                                                 "tags": tags, "contracted": True})
+        scan_proof_fns(woven, rel, shift, anchors)
     if record_baseline:
         json.dump(new_baseline, open(bp, "w"), indent=1, sort_keys=True)
     # vacuity probes: one proof fn per contracted function, `requires` = its preconditions,
@@ -1440,6 +1442,7 @@ def weave_tree(repo, out, extra_modules=None, contracts_dir=CONTRACTS, vacuity=F
         for f in sorted(os.listdir(lem_dir)):
             if f.endswith(".rs"):
                 shutil.copy(os.path.join(lem_dir, f), os.path.join(out, "src", "verif_" + f))
+                scan_proof_fns(open(os.path.join(lem_dir, f), encoding="utf-8").read(), "src/verif_" + f, 0, anchors)
     for f in ("Cargo.toml", "Cargo.lock"):
         if os.path.exists(os.path.join(repo, f)):
             shutil.copy(os.path.join(repo, f), os.path.join(out, f))
